@@ -351,7 +351,7 @@ def run_shard(spec, workdir):
                     "msg": f"optimiser {o}: requested array #{j} ({out_label(recipe, j)}): {why}",
                     "facts": dict(facts, output=out_label(recipe, j), why=why), "case": case})
         shutil.rmtree(wd, ignore_errors=True)
-        if k < 2 and spec.get("shard", 0) == 0:
+        if len(res["samples"]) < 2 and spec.get("shard", 0) == 0:
             res["samples"].append({"recipe": recipe, "optimizers": optimizer_specs(random.Random(0))})
     return res
 
